@@ -1,0 +1,130 @@
+// Copyright 2017 Pilosa Corp.
+//
+// Licensed under the Apache License, Version 2.0 (the "License");
+// you may not use this file except in compliance with the License.
+// You may obtain a copy of the License at
+//
+//     http://www.apache.org/licenses/LICENSE-2.0
+//
+// Unless required by applicable law or agreed to in writing, software
+// distributed under the License is distributed on an "AS IS" BASIS,
+// WITHOUT WARRANTIES OR CONDITIONS OF ANY KIND, either express or implied.
+// See the License for the specific language governing permissions and
+// limitations under the License.
+
+//go:build verif
+// +build verif
+
+package pilosa
+
+import (
+	"github.com/pilosa/pilosa/logger"
+	"github.com/pilosa/pilosa/roaring"
+)
+
+// Export shims for the verification harness (/verif, property C20: shard placement).
+// Add-only, tag-guarded. Every method calls the unexported function it is named after.
+
+// VerifC20Cluster wraps a real cluster value (newCluster: jmphasher, 256 partitions).
+type VerifC20Cluster struct {
+	c *cluster
+}
+
+// VerifC20NewCluster returns a cluster with the given replica count and no nodes.
+func VerifC20NewCluster(replicaN int) *VerifC20Cluster {
+	c := newCluster()
+	c.ReplicaN = replicaN
+	return &VerifC20Cluster{c: c}
+}
+
+// SetReplicaN changes the configured replica count.
+func (v *VerifC20Cluster) SetReplicaN(n int) { v.c.ReplicaN = n }
+
+// Join calls addNodeBasicSorted with a node of the given id, host and state.
+func (v *VerifC20Cluster) Join(id, host, state string) bool {
+	uri := defaultURI()
+	_ = uri.setHost(host)
+	return v.c.addNodeBasicSorted(&Node{ID: id, URI: *uri, State: state})
+}
+
+// Leave calls removeNodeBasicSorted.
+func (v *VerifC20Cluster) Leave(id string) bool { return v.c.removeNodeBasicSorted(id) }
+
+// NodeIDs returns the ids of c.nodes in slice order.
+func (v *VerifC20Cluster) NodeIDs() []string { return Nodes(v.c.nodes).IDs() }
+
+// NodeHost returns the URI host of the node with the given id ("" when absent).
+func (v *VerifC20Cluster) NodeHost(id string) string {
+	if n := v.c.unprotectedNodeByID(id); n != nil {
+		return n.URI.Host
+	}
+	return ""
+}
+
+// Partition calls cluster.partition.
+func (v *VerifC20Cluster) Partition(index string, shard uint64) int {
+	return v.c.partition(index, shard)
+}
+
+// PartitionNodes calls cluster.partitionNodes.
+func (v *VerifC20Cluster) PartitionNodes(p int) []string {
+	return Nodes(v.c.partitionNodes(p)).IDs()
+}
+
+// ShardNodes calls the exported cluster.ShardNodes (GET /internal/fragment/nodes).
+func (v *VerifC20Cluster) ShardNodes(index string, shard uint64) []string {
+	return Nodes(v.c.ShardNodes(index, shard)).IDs()
+}
+
+// OwnsShard calls cluster.ownsShard.
+func (v *VerifC20Cluster) OwnsShard(id, index string, shard uint64) bool {
+	return v.c.ownsShard(id, index, shard)
+}
+
+// ContainsShards calls cluster.containsShards for the node with the given id.
+func (v *VerifC20Cluster) ContainsShards(index string, shards []uint64, id string) []uint64 {
+	return v.c.containsShards(index, roaring.NewBitmap(shards...), &Node{ID: id})
+}
+
+// ShardsByNode calls executor.shardsByNode with the cluster's nodes restricted to the
+// given ids (the executor drops nodes from this list as they fail).
+func (v *VerifC20Cluster) ShardsByNode(avail []string, index string, shards []uint64) (map[string][]uint64, error) {
+	e := &executor{Cluster: v.c}
+	var nodes []*Node
+	for _, n := range v.c.nodes {
+		for _, id := range avail {
+			if n.ID == id {
+				nodes = append(nodes, n)
+				break
+			}
+		}
+	}
+	m, err := e.shardsByNode(nodes, index, shards)
+	if err != nil {
+		return nil, err
+	}
+	out := make(map[string][]uint64, len(m))
+	for n, ss := range m {
+		out[n.ID] = append(out[n.ID], ss...)
+	}
+	return out, nil
+}
+
+// ValidateShardOwnership calls API.validateShardOwnership on an API whose local node has the
+// given id.
+func (v *VerifC20Cluster) ValidateShardOwnership(self, index string, shard uint64) error {
+	old := v.c.Node
+	v.c.Node = &Node{ID: self}
+	defer func() { v.c.Node = old }()
+	api := &API{cluster: v.c, server: &Server{cluster: v.c, logger: logger.NopLogger}}
+	return api.validateShardOwnership(index, shard)
+}
+
+// VerifC20JumpHash calls jmphasher.Hash.
+func VerifC20JumpHash(key uint64, n int) int { return (&jmphasher{}).Hash(key, n) }
+
+// VerifC20IsNotOwner reports whether err is ErrClusterDoesNotOwnShard.
+func VerifC20IsNotOwner(err error) bool { return err == ErrClusterDoesNotOwnShard }
+
+// VerifC20IsShardUnavailable reports whether err is errShardUnavailable.
+func VerifC20IsShardUnavailable(err error) bool { return err == errShardUnavailable }
